@@ -16,7 +16,9 @@ THEOREMS = ["clamp_bounds", "indices_step1", "rangeLen_step1", "scatter_consecut
             "append_refines", "item_ops_refine", "slice_read_delete_refine", "pop_refines", "remove_refines",
             "errors_as_list", "zero_step_ValueError",
             "gen_setitem_slice_eq_model", "gen_delitem_int_eq_model", "gen_delitem_slice_eq_model", "gen_insert_eq_model", "contains_range1", "filter_outside",
-            "delSlice_contiguous", "setSlice_contiguous"]
+            "delSlice_contiguous", "setSlice_contiguous",
+            # T27: integer indexing (_validate_index, the int branches of __getitem__ / __setitem__)
+            "gen_validate_index_spec", "getItem_out_of_range", "cIndex_in_range", "gen_getitem_int_eq_model", "gen_setitem_at_eq_model", "gen_int_index_never_overflows"]
 RULE = ("four-way differential on every operation: the real DateTimeArray / TimeDeltaArray, a real Python list subjected to "
         "the same operation, the Lean list specification (Py/ListSpec.lean) and the Lean model of the implementation's "
         "algorithm (Model/BtArray.lean). Exhaustive part: every slice (start, stop in None/-7..7, step in None/-3..3 incl. 0) "
@@ -432,6 +434,17 @@ def run(ctx):
                 o = outcome(lambda: _np.insert(arr, p_, vs))
                 np1_lines.append(f"np1 ins {ren(base)} {p_} {ren(vs)}")
                 np1_want.append("ok " + ren(o[1].tolist()) if o[0] == "ok" else "err " + o[1])
+    # NumPy's own integer indexing, including the window in which its index conversion overflows (tier T27)
+    for base in ([], [5], [5, 6, 7]):
+        arr = _np.array(base, dtype=_np.int64)
+        for k_ in list(range(-4, 5)) + [2 ** 31, 2 ** 63 - 1, 2 ** 63, 2 ** 63 + 1, 2 ** 64 - 1, 2 ** 64, 10 ** 30, -2 ** 63, -2 ** 63 - 1, -2 ** 64, -10 ** 30]:
+            o = outcome(lambda: int(arr[k_]))
+            np1_lines.append(f"np1 get {ren(base)} {k_}")
+            np1_want.append(f"ok {o[1]}" if o[0] == "ok" else "err " + o[1])
+            arr2 = arr.copy()
+            o = outcome(lambda: arr2.__setitem__(k_, 9))
+            np1_lines.append(f"np1 setat {ren(base)} {k_} 9")
+            np1_want.append("ok " + ren(arr2.tolist()) if o[0] == "ok" else "err " + o[1])
     np1_res = ctx.model(np1_lines, driver="drivers/Np1.lean")
     for q, want, got in zip(np1_lines, np1_want, np1_res or []):
         ctx.case(("np1", q))
